@@ -1179,7 +1179,7 @@ pub fn c12_finish(ctx: &Ctx) -> i32 {
     crate::engine::finish(
         ctx,
         Finish {
-            rule: "cases: call histories of 0-60 calls (and, in `long-runs`, 260-1160 calls dominated by one kind of call: parameters of one function, instructions of one block, blocks, functions, module-level instructions, types, ids) over begin/end function, begin block, every terminator method, every block-instruction method (append and insert_* with offsets within the selected block), function_parameter, module-level and type methods, variable/undef/line/no_line, select_function/select_block with in- and out-of-range indices, OpName + select_function_by_name (`named-histories`), pop_instruction, id(); arguments planned from the grammar. Oracle (model R4): catch_unwind around every call; selection observed before/after every call and checked against the validity invariant; success/failure of each call decided by the observed pre-state as the statement says; after every call a full structural comparison of module_ref() with the model (Err => unchanged, Ok => exactly the modelled insertion/removal). non-trivial = history with a selection call or an error return and >= 2 functions; distinct = hash of the rendered history.",
+            rule: "cases: call histories of 0-60 calls (and, in `long-runs`, 260-1160 calls dominated by one kind of call: parameters of one function, instructions of one block, blocks, functions, module-level instructions, types, ids) over begin/end function, begin block, every terminator method, every block-instruction method (append and insert_* with offsets within the selected block), function_parameter, module-level and type methods, variable/undef/line/no_line, select_function/select_block with in- and out-of-range indices, OpName + select_function_by_name (`named-histories`), pop_instruction, id(); arguments planned from the grammar. Oracle (model R4): catch_unwind around every call; selection observed before/after every call and checked against the validity invariant; success/failure of each call decided by the observed pre-state as the statement says; after every call a full structural comparison of module_ref() with the model (Err => unchanged, Ok => exactly the modelled insertion/removal). non-trivial = history with a selection call or an error return and >= 2 functions; distinct = hash of the rendered history. Added in rounds 18-19: huge-runs (one structural call repeated up to 10^6 times) and vocabulary-histories (Builder preloaded with a coded half of every capability / extension / set import).",
             assumptions: vec!["InsertPoint offsets beyond the selected block's length are outside the stated precondition and never generated".into()],
             trusted_base: vec!["builder model R4".into(), "generated call sites (build.rs, syn)".into(), "golden grammar".into()],
         },
@@ -1577,7 +1577,7 @@ pub fn c13_finish(ctx: &Ctx) -> i32 {
     crate::engine::finish(
         ctx,
         Finish {
-            rule: "cases: (a) every generated type method (and type_pointer): requested twice implicitly with equal arguments, once with an explicit id, once more implicitly; (b) histories of 0-50 calls dominated by type requests over a small argument alphabet (so repeats are frequent) with and without explicit ids, interleaved with id(), constants, module-level and block-level calls that fail after reserving an id, optionally continuing from new_from_module with bound 0 / 1 / random / near u32::MAX. (b') long runs of 300-800 calls dominated by type requests (hundreds of declarations, each requested again many times); (c) two- and three-phase histories: module() then new_from_module(module) and on, with type requests repeating declarations made before the hand-over. Oracle (model R4): fresh ids strictly increasing from 1 / the bound (a failed id-reserving call may skip one id), explicit ids returned unchanged; implicit type request returns the id of an earlier identical declaration and leaves the module unchanged, otherwise appends exactly one declaration with a fresh id; explicit request always appends; final probe = id(), module().header.bound == probe + 1 and > every allocated id. non-trivial = history with >= 1 repeated implicit type request and >= 1 failing id-reserving call (sweep: each type method); distinct = hash of the rendered history.",
+            rule: "cases: (a) every generated type method (and type_pointer): requested twice implicitly with equal arguments, once with an explicit id, once more implicitly; (b) histories of 0-50 calls dominated by type requests over a small argument alphabet (so repeats are frequent) with and without explicit ids, interleaved with id(), constants, module-level and block-level calls that fail after reserving an id, optionally continuing from new_from_module with bound 0 / 1 / random / near u32::MAX. (b') long runs of 300-800 calls dominated by type requests (hundreds of declarations, each requested again many times); (c) two- and three-phase histories: module() then new_from_module(module) and on, with type requests repeating declarations made before the hand-over. Oracle (model R4): fresh ids strictly increasing from 1 / the bound (a failed id-reserving call may skip one id), explicit ids returned unchanged; implicit type request returns the id of an earlier identical declaration and leaves the module unchanged, otherwise appends exactly one declaration with a fresh id; explicit request always appends; final probe = id(), module().header.bound == probe + 1 and > every allocated id. non-trivial = history with >= 1 repeated implicit type request and >= 1 failing id-reserving call (sweep: each type method); distinct = hash of the rendered history. Added in rounds 18-19: referenced-types (type id named by every decoration / name / typed declaration, alone and under vocabulary preloads, before the repeated request).",
             assumptions: vec!["histories never exhaust 2^32 ids".into()],
             trusted_base: vec!["builder model R4".into(), "generated call sites".into()],
         },
@@ -2028,7 +2028,7 @@ pub fn c06_finish(ctx: &Ctx) -> i32 {
     crate::engine::finish(
         ctx,
         Finish {
-            rule: "cases: (a) per-method sweep: every instruction-emitting Builder method (1153, call sites generated from the working tree by build.rs) x3 in the smallest complete history; (b) complete histories: optional set_version, ids from b.id(), int/float types, module-level/type/global calls, 0-3 functions x 0-3 blocks of block instructions (append and insert_*), each block ended by a terminator method, each function ended, module-level calls interleaved anywhere; arguments grammar-conforming (enumerant parameters via additional_params, optionals as trailing run, typed literals of the declared width). (c') continued histories: a complete history, module(), new_from_module, another complete history; (c) parked histories: 1-3 functions built interleaved - a function or block is deselected (select_function(None) / select_block(None)) at random points, other functions are begun or resumed, and it is later re-selected (select_function(Some(i)) + select_block(Some(j))) and completed. Oracle: per call, the emitted instruction (found where the model R4 places it) equals the method's opcode + arguments in grammar order; at the end load_words(module().assemble()) is Ok and field-wise equal to the built module; version = the one set on the builder; bound = next id > every id used. non-trivial = history with >= 1 function, >= 2 blocks, >= 6 calls (sweep: the swept method was called); distinct = hash of the assembled words.",
+            rule: "cases: (a) per-method sweep: every instruction-emitting Builder method (1153, call sites generated from the working tree by build.rs) x3 in the smallest complete history; (b) complete histories: optional set_version, ids from b.id(), int/float types, module-level/type/global calls, 0-3 functions x 0-3 blocks of block instructions (append and insert_*), each block ended by a terminator method, each function ended, module-level calls interleaved anywhere; arguments grammar-conforming (enumerant parameters via additional_params, optionals as trailing run, typed literals of the declared width). (c') continued histories: a complete history, module(), new_from_module, another complete history; (c) parked histories: 1-3 functions built interleaved - a function or block is deselected (select_function(None) / select_block(None)) at random points, other functions are begun or resumed, and it is later re-selected (select_function(Some(i)) + select_block(Some(j))) and completed. Oracle: per call, the emitted instruction (found where the model R4 places it) equals the method's opcode + arguments in grammar order; at the end load_words(module().assemble()) is Ok and field-wise equal to the built module; version = the one set on the builder; bound = next id > every id used. non-trivial = history with >= 1 function, >= 2 blocks, >= 6 calls (sweep: the swept method was called); distinct = hash of the assembled words. Added in rounds 18-19: straddling-histories (ids across powers of two and ten).",
             assumptions: vec![
                 "excluded: begin_block_no_label (label-less block cannot be expressed in a binary); insert_into_block / insert_types_global_values with caller-made instructions; spec_constant_op only with opcodes whose embedded operand list can be empty; execution_mode / execution_mode_id only with modes whose parameters fit the [u32] signature; with several parameterised masks in one call only the last may carry parameters (single additional_params argument)".into(),
                 "histories whose assembled words the reference parser R1 does not accept are generator errors and skipped (counted as skipped_arguments_not_conforming)".into(),
